@@ -116,6 +116,12 @@ def cases(tier, inst):
             continue
         for da, db in itertools.product(doms_x, doms_y):
             yield (("orf", a, b, c), 2, "x", ("w", (("DA", "Item", da), ("DB", "Item", db))))
+    # EXPRESSIONS selected (two expressions of x and y), in every selection order, under conditions that leave x unbound in
+    # some or all rows
+    yq2 = ("cmp", "eq", A(Y, "q"), L(2))
+    for t in (yq2, ("or", yq2, ("cmp", "eq", A(X, "p"), A(Y, "p"))), ("or", ("cmp", "eq", A(X, "p"), A(Y, "p")), yq2),
+              ("and", yq2, ("or", ("cmp", "ge", A(Y, "p"), L(2)), ("cmp", "gt", A(X, "p"), L(1)))), XY_REP[0], XY_REP[2]):
+        yield (t, k, "exprs", "sel")
     # only some of the variables selected (the other one is a join variable that is projected away)
     proj = leaves_xy()[:7]
     for a, b, c in itertools.permutations(proj, 3):
@@ -243,11 +249,14 @@ def run_case(case, inst):
         return run_rule_case(case, inst)
     tree, k = case[0], case[1]
     wspec = case[3][1] if len(case) == 4 and case[3][0] == "w" else RICH
+    exprs = len(case) == 4 and case[3] == "sel"
     fa = len(case) == 4 and case[3] == "fa"          # z is the universal variable of a for_all: declared, neither selected nor a row variable
     three = "z" in Q.cond_vars(tree) and not fa
     vars0 = VARS3 if three else VXY
     sel0 = (X, Y, Z) if three else (X, Y)
-    if len(case) == 3 or (len(case) == 4 and not fa):
+    if exprs:
+        sel0 = (A(X, "tag"), A(X, "p"), Y)
+    elif len(case) == 3 or (len(case) == 4 and not fa):
         sel0 = (("v", case[2]),)
     base = ((tree,), vars0, sel0, 0)
     members = orbit(base, k)
@@ -260,7 +269,7 @@ def run_case(case, inst):
         rows = eval_rows(q, world, inst, predeclare=universals)
         if is_exc(rows):
             return rows, None
-        names = [s[1] for s in sel]
+        names = [s[1] if s[0] == "v" else repr(s) for s in sel]
         got = frozenset(frozenset(zip(names, (Q.norm(v) for v in r))) for r in rows)
         return got, (q, world)
 
@@ -274,7 +283,8 @@ def run_case(case, inst):
                 q, world = qw
                 ref = Q.Ref(world, inst, universals=universals)
                 sols = ref.solutions(("Q", "an", "setof", sel0, (tree,), vars0))
-                exp = frozenset(frozenset((n, Q.norm(env[n])) for n in [s[1] for s in sel0]) for env in sols)
+                exp = frozenset(frozenset((s_[1] if s_[0] == "v" else repr(s_), Q.norm(ref.value(s_, env))) for s_ in sel0)
+                                for env in sols)
                 total = 1
                 for v in vars0:
                     total *= len(ref.domain(v))
@@ -309,7 +319,8 @@ def describe(case, inst):
     tree, k = case[0], case[1]
     three = "z" in Q.cond_vars(tree) and len(case) != 4
     tiny = len(case) == 4 and case[3][0] == "w"
-    sel = (("v", case[2]),) if len(case) == 3 or tiny else ((X, Y, Z) if three else (X, Y))
+    sel = (A(X, "tag"), A(X, "p"), Y) if len(case) == 4 and case[3] == "sel" else (
+        (("v", case[2]),) if len(case) == 3 or tiny else ((X, Y, Z) if three else (X, Y)))
     return (Q.up_world(case[3][1] if tiny else RICH, inst)
             + ("\nwith symbolic_mode(): z = let(Item, DC)   # the universal variable" if len(case) == 4 and not tiny else "")
             + "\nbase: " + Q.up_query(("Q", "an", "setof", sel, (tree,),
